@@ -142,6 +142,12 @@ def run_structure(s):
                            detail=f"raised {type(raised).__name__ if raised else None}, statement says refusal={want_raise}")
                     oblige(f"view-after-call:{tag}", v1 == want,
                            detail=f"registry {sorted((sorted(k[0]), sorted(k[1]), n) for k, n in v1.items())} expected {sorted((sorted(k[0]), sorted(k[1]), n) for k, n in want.items())}")
+                    # get_metric takes the LAST entry of a key when it has to interpolate: the order of the entries must be that of the
+                    # one-at-a-time registration too, or the batching would show through get_metric
+                    fk = frozenset(key)
+                    oblige(f"entries-in-the-order-of-one-at-a-time-registration:{tag}",
+                           [(k, nm) for k, nm in v1.items() if k[0] == fk] == [(k, nm) for k, nm in want.items() if k[0] == fk],
+                           detail=f"{[nm for k, nm in v1.items() if k[0] == fk]} vs {[nm for k, nm in want.items() if k[0] == fk]}")
                     oblige(f"well-formed-preserved:{tag}", wf1)
                     oblige(f"frame:names-argument-unchanged:{tag}", arg_names == list(names))
     with util.patched(*util.std_patches(mods)):
